@@ -92,6 +92,12 @@ func getModel(o *oblOut, vc *VC) (map[string]string, string) {
 			}
 		}
 	}
+	if id := replayReaderTerm(vc); id != "" {
+		terms = append(terms, app("streamLen", id), fmt.Sprintf("(select H0_G_pos %s)", id))
+		for k := 0; k < 48; k++ {
+			terms = append(terms, fmt.Sprintf("(streamByte %s %d)", id, k))
+		}
+	}
 	// declared symbols only
 	text := string(src)
 	var keep []string
@@ -117,7 +123,7 @@ func getModel(o *oblOut, vc *VC) (map[string]string, string) {
 	q := text + "(get-value (" + strings.Join(keep, " ") + "))\n"
 	f := o.file + ".model.smt2"
 	os.WriteFile(f, []byte(q), 0o644)
-	for _, sp := range []solverSpec{solvers[0], solvers[2], solvers[1]} {
+	for _, sp := range []solverSpec{solvers[0], solvers[3], solvers[2]} {
 		ctx, cancel := context.WithTimeout(context.Background(), 20*time.Second)
 		args := append(append([]string{}, sp.Args[1:]...), f)
 		cmd := exec.CommandContext(ctx, sp.Args[0], args...)
@@ -183,9 +189,50 @@ func modelInt(m map[string]string, term string) (int64, bool) {
 	return n.Int64(), true
 }
 
+// replayReaderTerm: the reader named by a replay-reader clause (a field of the receiver, say), as an SMT term over the entry state.
+func replayReaderTerm(vc *VC) (id string) {
+	cls := vc.Con.Of("replay-reader")
+	if len(cls) == 0 || vc.entry == nil {
+		return ""
+	}
+	defer func() {
+		if r := recover(); r != nil {
+			id = ""
+		}
+	}()
+	vc.specDepth++
+	defer func() { vc.specDepth-- }()
+	env := vc.entryEnv(vc.entry.clone())
+	return env.eval(cls[0].Text).S
+}
+
+func streamLiteral(m map[string]string, id string) (string, bool) {
+	n, _ := modelInt(m, app("streamLen", id))
+	pos, _ := modelInt(m, fmt.Sprintf("(select H0_G_pos %s)", id))
+	if n-pos > 1<<16 || n-pos < 0 {
+		return "", false
+	}
+	var bs []string
+	for k := pos; k < n; k++ {
+		b, ok := modelInt(m, fmt.Sprintf("(streamByte %s %d)", id, k))
+		if !ok {
+			b = 0
+		}
+		bs = append(bs, fmt.Sprint(((b%256)+256)%256))
+	}
+	return "[]byte{" + strings.Join(bs, ", ") + "}", true
+}
+
 // literalArgs renders each parameter as a Go literal taken from the model.
 func literalArgs(vc *VC, m map[string]string) (map[string]string, bool) {
 	out := map[string]string{}
+	if id := replayReaderTerm(vc); id != "" {
+		lit, ok := streamLiteral(m, id)
+		if !ok {
+			return nil, false
+		}
+		out["$reader"] = lit
+	}
 	for _, p := range vc.Fn.Params {
 		v := vc.vals[p]
 		t := p.Type()
@@ -334,10 +381,18 @@ func harnessFor(vc *VC, args map[string]string) (string, bool) {
 			hasReader = true
 		}
 	}
+	readerLit, viaClause := args["$reader"]
+	if viaClause {
+		hasReader = true
+	}
 	var b strings.Builder
 	fmt.Fprintf(&b, harnessHeader, fn.Pkg.Pkg.Name())
 	b.WriteString("\nfunc TestGovcReplay(t *testing.T) {\n\tbad := false\n")
 	body := call
+	if viaClause {
+		body = strings.ReplaceAll(body, "$reader", "govcR")
+		fmt.Fprintf(&b, "\tgovcData := %s\n", readerLit)
+	}
 	for _, p := range fn.Params {
 		lit := args[p.Name()]
 		if isReader(p.Type()) {
@@ -348,7 +403,8 @@ func harnessFor(vc *VC, args map[string]string) (string, bool) {
 		body = strings.ReplaceAll(body, "$"+p.Name(), lit)
 	}
 	if hasReader {
-		fmt.Fprintf(&b, "\tfor i := range govcReaders(govcData) {\n\t\tgovcR := govcReaders(govcData)[i]\n\t\t_ = govcR\n\t\tif govcTry(fmt.Sprint(\"reader#\", i), func() { %s }) {\n\t\t\tbad = true\n\t\t}\n\t}\n", body)
+		// C18 oracle: the printed result must not depend on how the reader chunks the stream
+		fmt.Fprintf(&b, "\tvar govcFirst string\n\tfor i := range govcReaders(govcData) {\n\t\tgovcR := govcReaders(govcData)[i]\n\t\t_ = govcR\n\t\tvar govcOut string\n\t\tif govcTry(fmt.Sprint(\"reader#\", i), func() { govcOut = fmt.Sprint(%s) }) {\n\t\t\tbad = true\n\t\t}\n\t\tif i == 0 {\n\t\t\tgovcFirst = govcOut\n\t\t} else if govcOut != govcFirst {\n\t\t\tfmt.Printf(\"GOVC-REPLAY chunking changes the result: reader#%%d gives %%q, whole-buffer reader gives %%q\\n\", i, govcOut, govcFirst)\n\t\t\tbad = true\n\t\t}\n\t}\n", body)
 	} else {
 		fmt.Fprintf(&b, "\tif govcTry(\"call\", func() { %s }) {\n\t\tbad = true\n\t}\n", body)
 	}
@@ -409,7 +465,13 @@ func boundarySearch(w *World, o *oblOut, scratch string) map[string]interface{} 
 	vc := o.rep.VC
 	fn := vc.Fn
 	var target string
+	if len(vc.Con.Of("replay-reader")) > 0 {
+		target = "$reader"
+	}
 	for _, p := range fn.Params {
+		if target == "$reader" {
+			break
+		}
 		if isByteSlice(p.Type()) || isReader(p.Type()) {
 			if target != "" {
 				return nil
@@ -428,6 +490,9 @@ func boundarySearch(w *World, o *oblOut, scratch string) map[string]interface{} 
 	}
 	// the harness iterates over a corpus instead of a single literal
 	args := map[string]string{}
+	if target == "$reader" {
+		args["$reader"] = "govcCase"
+	}
 	for _, p := range fn.Params {
 		if p.Name() == target {
 			args[p.Name()] = "govcCase"
